@@ -45,11 +45,11 @@ def jac_transform(s, x, y=None):
     if s.numinv and (not np.all(np.isfinite(J)) or np.any(np.all(J == 0, axis=1))):
         if y is None:
             y = np.asarray(s.obj.transform(jnp.asarray(x), s.cj))
-        Ji = jac(s.obj, y, s.c, "inverse")
         try:
+            Ji = jac(s.obj, y, s.c, "inverse")
             J = np.linalg.inv(Ji)
-        except np.linalg.LinAlgError:
-            J = np.full_like(Ji, np.nan)
+        except (np.linalg.LinAlgError, NotImplementedError):  # singular, or a forward-only part (planar-tanh) in the tree
+            J = np.full_like(J, np.nan)
     return J
 
 
